@@ -12,7 +12,7 @@ RULE = ("1-D/2-D/3-D histograms of every dtype with missed values, custom errors
 MODELLED = ("__mul__/__imul__/__rmul__/__truediv__/__itruediv__, normalize, Histogram2D.partial_normalize, Statistics.__mul__, "
             "_coerce_dtype are modelled in coq/Model/ScaleCases.v; float rounding of non-dyadic factors is covered by the stated "
             "tolerance, not modelled")
-KINDS = ["pyint", "pyfloat", "np.int64", "np.int32", "np.float64", "np.float32"]
+KINDS = ["pyint", "pyfloat", "np.int64", "np.int32", "np.float64", "np.float32", "np.float128"]
 
 def pow2(c):
     c = Fr(c)
@@ -64,7 +64,7 @@ def _scalar(c, kind):
     c = Fr(c)
     if kind == "pyint": return int(c)
     if kind == "pyfloat": return float(c)
-    return getattr(np, kind[3:])(float(c) if "float" in kind else int(c))
+    return getattr(np, kind[3:].replace("float128", "longdouble"))(float(c) if "float" in kind else int(c))
 
 def impl(case):
     import numpy as np, warnings
